@@ -29,7 +29,8 @@ THEOREMS = ["Cog.Builder." + t for t in [
     "C17_option_duplicate_shape", "C17_option_duplicate_identical", "C17_option_duplicate_dropped_default_before_fix",
     "C17_array_to_append_same_target", "C17_map_to_index_same_target", "C17_unfold_boolean_same_target",
     "C17_struct_fields_as_options_same_targets", "C17_struct_fields_as_arguments_same_targets",
-    "C17_disjunction_as_options_same_target",
+    "C17_disjunction_as_options_same_target", "C17_disjunction_index_out_of_range_unchanged",
+    "C17_disjunction_index_out_of_range_panicked_before_fix",
     "C17_builder_rule_preserves", "C17_option_rule_preserves", "C17_seq", "C17_seq_counterexample",
     "C17_seq_counterexample_shared_pointer", "C17_seq_counterexample_unfold_after_index",
     "C17_frame_norules_partial", "C17_frame_norules_counterexample", "C17_frame_counterexample_shared_pointer",
@@ -43,17 +44,7 @@ WITNESSES = ["dup-option-default", "dup-builder-default", "dismissed", "rename-a
 MUST_PASS = {"dup-option-default", "dup-builder-default"}
 # deterministic regression inputs without a Lean witness term: the real code must pass the oracle and
 # agree with the model (request through the driver)
-MUST_PASS_PINNED = ["merge-into-3-segments"]
-# Found after the last merge; sent to the coordinator for /verif/known_findings.json. Used only while
-# that file does not list the id; delete once merged.
-PENDING = [{
- "id": "C17/struct_fields_as_arguments/prefix-taken-from-first-assignment",
- "property": "C17",
- "what": "option.StructFieldsAsArgumentsAction (and \u2026AsOptionsAction) prefix the first argument's fields with `oldAssignments[0].Path`, assuming the first assignment is the one that assigns the first argument: after an earlier struct_fields_as_arguments whose struct starts with a constant field, Assignments[0] is the constant assignment (`r.v = \"x\"`), so a second application builds paths `r.v.v`, `r.v.r` through a scalar",
- "match": "FAIL wt-broken\\(option-struct_fields_as_(arguments|options)/option/path-through-non-struct(/after-[a-z_+]+)?\\): builder \\S+ option \\S+\\[\\d+\\] \\(through scalar\\):path-through-non-struct",
- "pinned": "0:0:pinned:sf-args-twice:",
- "pinned_input": "schemas: package p { S = \u2026; R = struct { v: \"x\" (constant, required), r?: ref p.R } }; veneers (language all, package p): options: - struct_fields_as_arguments: {by_name: R.r} - struct_fields_as_arguments: {by_name: R.r}  ->  second application assigns paths r.v.v / r.v.r"
-}]
+MUST_PASS_PINNED = ["merge-into-3-segments", "disjunction-index-out-of-range"]
 FIXED_IDS = {"C17/duplicate-option/default-dropped", "C17/duplicate-builder/option-defaults-dropped"}
 GO_ONLY_PINNED = ["compose-then-initialize"]
 FILES = HARNESS_BASE + ["vir_builders.go", "c16_*.go", "c17_*.go"]
@@ -76,7 +67,6 @@ def main():
     c = Check("C17")
     # repaired in /repo 71b1811: these entries explain nothing any more, whatever known_findings.json still lists
     c.known = [f for f in c.known if f["id"] not in FIXED_IDS]
-    c.known += [f for f in PENDING if f["id"] not in {k["id"] for k in c.known}]
     c.trusted = [
         "Lean 4.33 kernel; axioms per theorem are listed in obligation_list (subset of propext, Classical.choice, Quot.sound)",
         "hand-written model lean/Cog/Builder/Veneers.lean of internal/veneers/{builder,option,rewrite} + internal/yaml veneer glue + internal/veneers/types.go, tied by the c17-veneer correspondence stream: generated rule files are loaded THROUGH yaml.VeneersLoader and applied by rewrite.Rewriter.ApplyTo; the model gets the same files as decoded by yaml.v3 into yaml.Veneers (second decode, same settings)",
